@@ -334,9 +334,18 @@ impl Accept {
 
     // Send connection to worker and handle error.
     fn send_connection(&mut self, conn: Conn) -> Result<(), Conn> {
+        #[cfg(actix_net_verif)]
+        let verif_token = conn.token;
+
         let next = self.next();
         match next.send(conn) {
             Ok(_) => {
+                #[cfg(actix_net_verif)]
+                {
+                    crate::verif::log_dispatch(verif_token, Some(next.idx()));
+                    crate::verif::yield_point(crate::verif::YieldPoint::SentNotCounted { idx: next.idx() });
+                }
+
                 // Increment counter of WorkerHandle.
                 // Set worker to unavailable with it hit max (Return false).
                 if !next.inc_counter() {
@@ -352,6 +361,9 @@ impl Accept {
                 self.remove_next();
 
                 if self.handles.is_empty() {
+                    #[cfg(actix_net_verif)]
+                    crate::verif::log_dispatch(verif_token, None);
+
                     error!("no workers");
                     // All workers are gone and Conn is nowhere to be sent.
                     // Treat this situation as Ok and drop Conn.
@@ -367,6 +379,9 @@ impl Accept {
 
     fn accept_one(&mut self, mut conn: Conn) {
         loop {
+            #[cfg(actix_net_verif)]
+            crate::verif::spin_tick();
+
             let next = self.next();
             let idx = next.idx();
 
@@ -381,6 +396,9 @@ impl Accept {
 
                 if !self.avail.available() {
                     while let Err(c) = self.send_connection(conn) {
+                        #[cfg(actix_net_verif)]
+                        crate::verif::spin_tick();
+
                         conn = c;
                     }
                     return;
@@ -391,6 +409,9 @@ impl Accept {
 
     fn accept(&mut self, sockets: &mut [ServerSocketInfo], token: usize) {
         while self.avail.available() {
+            #[cfg(actix_net_verif)]
+            crate::verif::spin_tick();
+
             let info = &mut sockets[token];
 
             match info.lst.accept() {
